@@ -217,7 +217,7 @@ PROPS['C02'] = {
 _C03_SCEN = [  # (scenario, threads, quick cases, thorough cases)
     ('future_mt', 5, 12000, 600000), ('future_async_mt', 5, 12000, 600000), ('mutex_mt', 4, 10000, 500000), ('mutex_pool_handoff', 1, 20000, 400000),
     ('queue_mt', 5, 8000, 400000), ('lqueue_mt', 5, 8000, 400000), ('shared_future_mt', 4, 10000, 500000),
-    ('scheduler_threads', 1, 6000, 200000), ('scheduler_stop_race', 1, 6000, 200000), ('pool_mt', 4, 12000, 400000),
+    ('scheduler_threads', 1, 6000, 200000), ('scheduler_stop_race', 1, 6000, 200000), ('pool_mt', 4, 12000, 400000), ('publisher_mt', 4, 8000, 400000),
 ]
 PROPS['C03'] = {
     'technique': 'ThreadSanitizer (happens-before race detection) over the shared multi-threaded scenario library; guarded fence annotation',
@@ -343,5 +343,31 @@ PROPS['C11'] = {
         J('mt_asan', 'c11.cpp', 'asan', [12000, 600000], scenario='pool_mt', detect_leaks=0),
         J('mt_rel', 'c11.cpp', 'rel', [25000, 1500000], scenario='pool_mt'),
         J('mt_crel', 'c11.cpp', 'crel', [0, 800000], scenario='pool_mt', tiers=(T,)),
+    ],
+}
+
+PROPS['C16'] = {
+    'technique': 'operation histories vs reference stream model (single thread); MT rounds with contiguity / bounds oracles on unique ids; ASan',
+    'level_text': ('Single-thread histories over publish (single, batch), subscribe (recent, at a retained position, by copy - also of a parked '
+                   'subscriber), next (awaited by a coroutine, blocking, next_ready), kick (both forms), leave, close and publisher destruction, for '
+                   'min/max in 1..5 and unlimited and all three modes, checked after every step against a reference stream. all_values: the value '
+                   'is exactly position+1, no gap/duplicate, end-of-stream only if closed-and-drained, kicked or more than max behind. Skip modes '
+                   'are judged by what the statement says and no more: position() strictly increases, values never go backwards, skip_to_recent '
+                   'yields the newest value. Waiting subscribers must be woken exactly by publish/close/kick/destruction. MT rounds: a publisher '
+                   'thread (batches, kick, close or destruction) against 1-3 subscriber threads (coroutine or blocking, early or subscribing '
+                   'concurrently with bounded subscription point), stalls in the ready()/subscribe() gap and after the publisher unlocks.'),
+    'level_note': ('Subscribing at a position only uses positions the configured minimum retention guarantees; a subscriber instance is never shared '
+                   'between roles except through kick(pointer), which the API documents as safe. Trusts the reference stream model.'),
+    'rule': ('case = one history (2-50 ops) or one MT round (1-6 publishes of 1-4 values, 1-3 subscribers); non-trivial = >=4 ops / every MT round; '
+             'distinct = distinct op trace (with configuration and modes) / (batch layout, close style, subscriber kinds, kick target).'),
+    'min_nontrivial': [300, 3000],
+    'require_classes': ['publisher_history:histories_copying_a_parked_subscriber', 'publisher_mt:rounds_with_stall_fired'],
+    'single_thread_scenarios': ('publisher_history',),
+    'jobs': [
+        J('hist_asan', 'c16.cpp', 'asan', [40000, 2000000], scenario='publisher_history', threads=1),
+        J('mt_asan', 'c16.cpp', 'asan', [40000, 2000000], scenario='publisher_mt'),
+        J('mt_rel', 'c16.cpp', 'rel', [150000, 8000000], scenario='publisher_mt'),
+        J('mt_crel', 'c16.cpp', 'crel', [0, 3000000], scenario='publisher_mt', tiers=(T,)),
+        J('hist_casan', 'c16.cpp', 'casan', [0, 800000], scenario='publisher_history', threads=1, tiers=(T,)),
     ],
 }
